@@ -1,7 +1,7 @@
 (** Proofs about Model/Order.v (C10). *)
 From Coq Require Import ZArith NArith List Bool Lia Permutation Sorting.Sorted.
 From Coq Require Import ZifyBool ZifyNat ZifyN.
-From Snel Require Import Base.Bytes Base.OrdF64 Gen.Params Model.Order Proofs.SortMergeProofs.
+From Snel Require Import Base.Bytes Base.OrdF64 Gen.Params Model.Order Proofs.SortMergeProofs Proofs.F64Proofs.
 Import ListNotations.
 
 (** * Basic total preorders *)
@@ -54,6 +54,7 @@ Proof.
   - apply (proj_tp as_u64), opt_cmp_tp, Zcompare_tp.
   - apply (proj_tp (fun a => match a with VFloat x _ => Some (f64_key x) | _ => None end)),
       opt_cmp_tp, Zcompare_tp.
+  - apply (proj_tp num_key), opt_cmp_tp, Zcompare_tp.
   - apply (proj_tp (fun a => match a with VBool x => Some x | _ => None end)), opt_cmp_tp, bool_cmp_tp.
   - apply (proj_tp (fun a => match a with VStr s => s | _ => [] end)), bytes_cmp_tp.
 Qed.
@@ -155,6 +156,38 @@ Proof.
     + cbn [typed_compare opt_cmp]. unfold scalar_compare. cbn [as_u64 as_i64 as_f64].
       unfold f64_partial_cmp.
       destruct (f64_is_nan xa); [discriminate|]. destruct (f64_is_nan xb); [discriminate|]. reflexivity.
+  - (* KNum *)
+    assert (Hint : forall x y, is_numlike (VInt x) = true -> is_numlike (VInt y) = true ->
+              Z.compare x y = Z.compare (f64_key (f64_of_Z x)) (f64_key (f64_of_Z y))).
+    { intros x y Hx Hy. cbn in Hx, Hy. unfold num_int_bound in *.
+      symmetry. apply (int_key_compare x y); unfold two53; lia. }
+    assert (Hnan : forall x, is_numlike (VInt x) = true -> f64_is_nan (f64_of_Z x) = false).
+    { intros x Hx. cbn in Hx. unfold num_int_bound in *. apply int_not_nan. unfold two53. lia. }
+    assert (Hii : forall x y, is_numlike (VInt x) = true -> is_numlike (VInt y) = true ->
+              forall a' b', as_u64 a' = (if 0 <=? x then Some x else None) -> as_i64 a' = Some x ->
+                            as_u64 b' = (if 0 <=? y then Some y else None) -> as_i64 b' = Some y ->
+              scalar_compare a' b' = Z.compare (f64_key (f64_of_Z x)) (f64_key (f64_of_Z y))).
+    { intros x y Hx Hy a' b' U1 I1 U2 I2. unfold scalar_compare. rewrite U1, I1, U2, I2, <- (Hint x y Hx Hy).
+      destruct (0 <=? x), (0 <=? y); reflexivity. }
+    assert (Hif : forall x xb rb, is_numlike (VInt x) = true -> is_numlike (VFloat xb rb) = true ->
+              forall a', as_u64 a' = (if 0 <=? x then Some x else None) -> as_i64 a' = Some x ->
+                         as_f64 a' = Some (f64_of_Z x) ->
+              scalar_compare a' (VFloat xb rb) = Z.compare (f64_key (f64_of_Z x)) (f64_key xb)
+              /\ scalar_compare (VFloat xb rb) a' = Z.compare (f64_key xb) (f64_key (f64_of_Z x))).
+    { intros x xb rb Hx Hf a' U I F. unfold scalar_compare. rewrite U, I, F. cbn [as_u64 as_i64 as_f64].
+      unfold f64_partial_cmp. rewrite (Hnan x Hx). cbn in Hf. destruct (f64_is_nan xb); [discriminate|].
+      cbn. destruct (0 <=? x); split; reflexivity. }
+    destruct a as [| |xa|xa ra|xa| |], b as [| |xb|xb rb|xb| |]; try discriminate;
+      cbn [typed_compare num_key opt_cmp]; try reflexivity;
+      try (apply scalar_compare_null_l; cbn; first [apply dec_of_Z_nonempty
+             | cbn in Hb; destruct rb; [rewrite andb_false_r in Hb; discriminate|discriminate]]);
+      try (apply scalar_compare_null_r; [|auto]; cbn; first [apply dec_of_Z_nonempty
+             | cbn in Ha; destruct ra; [rewrite andb_false_r in Ha; discriminate|discriminate]]);
+      try (apply (Hii xa xb Ha Hb); reflexivity);
+      try (apply (Hif xa xb rb Ha Hb); reflexivity);
+      try (apply (Hif xb xa ra Hb Ha); reflexivity).
+    unfold scalar_compare. cbn [as_u64 as_i64 as_f64]. unfold f64_partial_cmp.
+    cbn in Ha, Hb. destruct (f64_is_nan xa); [discriminate|]. destruct (f64_is_nan xb); [discriminate|]. reflexivity.
   - (* KBool *)
     destruct a as [|xa| | | | |], b as [|xb| | | | |]; cbn in Ha, Hb; try discriminate; try reflexivity.
     + destruct xb; reflexivity.
